@@ -15,7 +15,9 @@ CONSTANTS
   MaxItems = 3
   Layouts = {}
   TableOnly = {"g1212"}
-  OkRecomputed = FALSE
+  AttOpts = {"none", "c1", "c12", "c0", "c1e4", "c7e5", "c3e5"}
+  OkRecomputed = TRUE
+  ParentForcesChildDebug = FALSE
 INVARIANT InvStage
 INVARIANT InvRaisedNoVerdict
 INVARIANT InvGradesInUnit
@@ -27,5 +29,6 @@ INVARIANT InvNoLeak
 INVARIANT InvVerdictAgrees
 INVARIANT InvListOrder
 INVARIANT InvAllOrNothing
-INVARIANT InvOnlyKnownDefect
-INVARIANT InvDefectCause
+INVARIANT InvAloneSameAsInList
+INVARIANT InvChildDebugAsConfigured
+INVARIANT InvReturnedWellFormed
